@@ -38,6 +38,10 @@ pub enum FaultKind {
     Flip { sel: OffSel, bit: u8 },
     Trunc { sel: LenSel },
     Delete,
+    /// MANIFEST only: the i-th listed segment name is replaced by the j-th listed name — what a
+    /// single flipped bit does when two time-based segment names are neighbours (observed:
+    /// ...237704.wal / ...237784.wal); generated directly because the names change per run
+    ListedNameCollision { i: u8, j: u8 },
 }
 
 #[derive(Clone, Debug, Serialize, Deserialize)]
@@ -57,9 +61,9 @@ pub struct Case {
 pub struct C13;
 
 #[derive(Clone, Debug)]
-struct Region {
-    off: usize,
-    name: &'static str,
+pub(super) struct Region {
+    pub off: usize,
+    pub name: &'static str,
 }
 
 #[derive(Clone, Debug, PartialEq, Eq)]
@@ -89,7 +93,7 @@ impl FileClass {
 
 /// Frame boundaries of a WAL file (offsets where a frame starts, plus the end of the last
 /// complete frame) and the structural offsets inside it.
-fn parse_wal(bytes: &[u8]) -> (Vec<usize>, Vec<Region>) {
+pub(super) fn parse_wal(bytes: &[u8]) -> (Vec<usize>, Vec<Region>) {
     let mut bounds = vec![];
     let mut regions = vec![];
     for i in 0..4.min(bytes.len()) {
@@ -271,7 +275,7 @@ impl Prop for C13 {
             }
             let mut t = Tape::new(&c[1..]);
             let file = t.u16();
-            let kind = match t.weighted(&[10, 5, 1]) {
+            let kind = match t.weighted(&[10, 5, 1, 1]) {
                 0 => {
                     let sel = if t.chance(176) { OffSel::Structural(t.u16()) } else { OffSel::Random(t.u32()) };
                     FaultKind::Flip { sel, bit: t.below(8) as u8 }
@@ -280,7 +284,8 @@ impl Prop for C13 {
                     let sel = if t.chance(176) { LenSel::Boundary(t.u16(), t.pick(&[0i8, -1, 1])) } else { LenSel::Random(t.u32()) };
                     FaultKind::Trunc { sel }
                 }
-                _ => FaultKind::Delete,
+                2 => FaultKind::Delete,
+                _ => FaultKind::ListedNameCollision { i: t.u8(), j: t.u8() },
             };
             faults.push(Fault { file, kind });
         }
@@ -327,12 +332,25 @@ impl Prop for C13 {
             if info.files.is_empty() {
                 break;
             }
-            let name = info.files[fault.file as usize % info.files.len()].clone();
+            let name = if matches!(fault.kind, FaultKind::ListedNameCollision { .. }) { "MANIFEST".to_string() } else { info.files[fault.file as usize % info.files.len()].clone() };
             let class = classify(&info, &name);
             let orig = std::fs::read(dir.join(&name)).map_err(|e| Failure::new("setup_failed", e.to_string()))?;
             // ---- materialise the fault --------------------------------------------------
             let (damaged, region, desc): (Option<Vec<u8>>, String, String) = match &fault.kind {
                 FaultKind::Delete => (None, "delete".into(), "delete".into()),
+                FaultKind::ListedNameCollision { i, j } => {
+                    let n = info.manifest_wals.len();
+                    if n < 2 {
+                        continue;
+                    }
+                    let (a, b) = (&info.manifest_wals[*i as usize % n], &info.manifest_wals[*j as usize % n]);
+                    if a == b {
+                        continue;
+                    }
+                    let text = String::from_utf8_lossy(&orig).to_string();
+                    let d = text.replacen(a.as_str(), b.as_str(), 1);
+                    (Some(d.into_bytes()), "segment_name".into(), format!("listed segment name {} replaced by listed name {}", a, b))
+                }
                 FaultKind::Flip { sel, bit } => {
                     if orig.is_empty() {
                         continue;
@@ -440,6 +458,7 @@ impl Prop for C13 {
                         "documents_altered"
                     };
                     let fault_name = match &fault.kind {
+                        FaultKind::ListedNameCollision { .. } => "name_collision",
                         FaultKind::Delete => "delete",
                         FaultKind::Flip { .. } => "flip",
                         FaultKind::Trunc { .. } => "truncate",
@@ -491,13 +510,15 @@ impl C13 {
 }
 
 pub fn main(ctx: &Ctx) {
-    ctx.assume("engine-level strict recovery (HnswBackend::recover); the real server binary's start-up is exercised by the server driver in the thorough tier");
+    ctx.assume("part damage: engine-level strict recovery (HnswBackend::recover) with structure-aware faults; part server: the same oracle through the real server binary's start-up (strict mode, fresh start disabled) with byte-level faults");
     ctx.assume("faults on the newest listed log segment whose outcome equals a frame-prefix replay of that segment are excluded (C01's crash case), as the property states");
     ctx.assume("snapshot size-field faults are recovered in a child process because the engine may abort on an unbounded allocation; an abort counts as 'refused to start'");
     run_committed_replays(ctx, &C13);
     run_pbt(ctx, &C13, ctx.tier.pick(12_000, 200_000));
+    run_committed_replays(ctx, &super::c13srv::C13Srv);
+    run_pbt(ctx, &super::c13srv::C13Srv, ctx.tier.pick(160, 3_000));
 }
 
 pub fn replay(ctx: &Ctx, v: &serde_json::Value) -> Option<i32> {
-    replay_file(ctx, &C13, v)
+    replay_file(ctx, &C13, v).or_else(|| replay_file(ctx, &super::c13srv::C13Srv, v))
 }
